@@ -121,7 +121,7 @@ class Ctx:
 
 
 # ----------------------------------------------------------------------------- concrete side
-def run_concrete(pid, jobs, timeout=1500):
+def run_concrete(pid, jobs, timeout=2400, groups=None):
     """run module.concrete(family, params) for each job in a fresh interpreter with Numba JIT enabled.
     returns list of result dicts (or {'error':...})."""
     if not jobs:
@@ -129,7 +129,7 @@ def run_concrete(pid, jobs, timeout=1500):
     os.makedirs(os.path.join(ROOT, "scratch"), exist_ok=True)
     path = os.path.join(ROOT, "scratch", "concrete-%s-%d.json" % (pid, os.getpid()))
     with open(path, "w") as f:
-        json.dump([{"name": n, "family": fa, "params": p} for n, fa, p in jobs], f)
+        json.dump([{"name": n, "family": fa, "params": p, "group": (groups or {}).get(n)} for n, fa, p in jobs], f)
     env = dict(os.environ)
     env.pop("NUMBA_DISABLE_JIT", None)
     env["NUMBA_CACHE_DIR"] = os.path.join(ROOT, "scratch", "numba_cache")
@@ -279,7 +279,8 @@ def finish(ctx, module):
                 uniq[k] = len(order)
                 order.append((name, family, p))
         ctx.log("replaying %d counterexample candidates (%d distinct replays) on the JIT build" % (len(jobs), len(order)))
-        ures = run_concrete(pid, order)
+        grp = {ob.name: "%s|%s" % (ob.family, ob.group) for ob in ctx.obs}
+        ures = run_concrete(pid, order, groups=grp)
         res = []
         for name, family, p in jobs:
             k = json.dumps([family, {a: b for a, b in p.items() if a != "_model"}], sort_keys=True, default=str)
@@ -288,6 +289,8 @@ def finish(ctx, module):
         for (name, family, params, model, what), (_, _, p), r in zip(candidates, jobs, res):
             if r.get("error"):
                 inconclusive.append("replay %s: %s" % (name, r["error"][-300:]))
+                continue
+            if r.get("skipped_same_group"):
                 continue
             if r.get("gap", 0.0) > GAP:
                 key = r.get("key") or name
@@ -388,6 +391,9 @@ def finish(ctx, module):
         "wall_s": round(wall, 2),
         "violations": len(violations),
     }
+    extra = getattr(module, "evidence_extra", None)
+    if extra:
+        ev["coverage"].update(extra(ctx))
     os.makedirs(os.path.join(ROOT, "evidence"), exist_ok=True)
     with open(os.path.join(ROOT, "evidence", pid + ".json"), "w") as f:
         json.dump(ev, f, indent=1, default=str)
